@@ -102,6 +102,28 @@ def _m_tlock(a, k):
     a.push(1).push(1).op("SSTORE").op("STOP")
 
 
+def _m_bind(swapped):
+    # bind(a, b): if (b > K) {} [or b == K, by the parity of K]; require(a == b); v = a      (swapped: the require comes first)
+    # the two arms store the same term and differ only in a condition on b, which reaches the state through a == b alone:
+    # they are different states (one allows v == K, the other does not) and must not be merged
+    def emit(a, k):
+        def branch():
+            skip = a.fresh("skip")
+            a.push(k).push(0x24).op("CALLDATALOAD").op("GT" if k % 2 == 0 else "EQ").op("ISZERO").jumpi(skip)
+            a.push(0).push(0).op("LOG0")
+            a.label(skip)
+
+        def req():
+            ok = a.fresh("ok")
+            a.push(0x24).op("CALLDATALOAD").push(4).op("CALLDATALOAD").op("EQ").jumpi(ok)
+            a.push(0).push(0).op("REVERT")
+            a.label(ok)
+        for part in ((req, branch) if swapped else (branch, req)):
+            part()
+        a.push(4).op("CALLDATALOAD").push(0).op("SSTORE").op("STOP")
+    return emit
+
+
 def _child_runtime(c):
     # the constant sits in the code like a Solidity immutable: PUSH32 <c> at offset 1
     rt = Asm()
@@ -144,6 +166,8 @@ MUTATORS = {
     "touch": ("touch()", "nonpayable", _m_touch),
     "guarded": ("guarded()", "nonpayable", _m_guarded),
     "tlock": ("tlock()", "nonpayable", _m_tlock),
+    "bind": ("bind(uint256,uint256)", "nonpayable", _m_bind(False)),
+    "bindr": ("bindr(uint256,uint256)", "nonpayable", _m_bind(True)),
 }
 INVARIANTS = ["v_ne_k", "v_lt_k", "w_zero", "sum_ne_k"]
 
@@ -217,7 +241,7 @@ class InvCase:
                     a.label(ok)
                 emit(a, self.k)
             fns[sig] = body
-            abis.append(A.abi_item(sig, ["x"] if "uint256" in sig else [], mutability=mut))
+            abis.append(A.abi_item(sig, ["x", "y"][:sig.count("uint256")], mutability=mut))
         fns["getV()"] = lambda a: (a.push(0).op("SLOAD").push(0x80).op("MSTORE"), a.push(0x20).push(0x80).op("RETURN"))
         fns["getW()"] = lambda a: (a.push(1).op("SLOAD").push(0x80).op("MSTORE"), a.push(0x20).push(0x80).op("RETURN"))
         abis.append(A.abi_item("getV()", outputs=["uint256"], mutability="view"))
@@ -388,9 +412,11 @@ class InvCase:
                 for (c, m) in calls:
                     sig, mut, _ = MUTATORS[m]
                     args = argdom if "uint256" in sig else [None]
+                    if sig.count("uint256") == 2:
+                        args = list(itertools.product(sorted({0, self.k, (self.k - 1) & M256, self.k + 1}), repeat=2))
                     values = [0, 1] if mut == "payable" else [0]
                     for x, s, v, dt in itertools.product(args, senders, values, (0, 1)):
-                        data = A.selector(sig) + (x.to_bytes(32, "big") if x is not None else b"")
+                        data = A.selector(sig) + (b"" if x is None else b"".join(v_.to_bytes(32, "big") for v_ in (x if isinstance(x, tuple) else (x,))))
                         w2, panicked = self.apply_call(w, ts + dt, c, data, s, v)
                         step = (hex(c), m, x, hex(s), v, ts + dt)
                         if panicked:
